@@ -120,3 +120,55 @@ Proof.
     (xl_State_Clear s H v Hv))))))).
 Qed.
 Print Assumptions C03_source_state_predicates.
+
+(* ---- tie C3: the close-body functions TRANSLATED from frame.go / read.go on this run (gen/Translated3.v,
+   memory model lib/GoMem.v: slices alias a heap of byte arrays, strings are immutable values). *)
+Require GoSlices GoMem GoMemProofs Translated3 Translated3Ok.
+
+(* ParseCloseFrameData and ParseCloseFrameDataUnsafe: for every heap and every valid payload slice with
+   content p: no panic, the result is (code, reason) of the model's parse_close, memory is not changed.
+   (btsToString is read as string(b): the Unsafe variant's aliasing of the reason is NOT modelled.) *)
+Theorem C03_source_close_body_parse : forall w s p,
+  GoMem.sl_valid w s -> GoMem.sl_bytes w s = Translated3Ok.zb p ->
+  Translated3.g3_ParseCloseFrameData s w = GoSlices.Ok (Translated3Ok.parse_close_z p, w).
+Proof. exact Translated3Ok.g3_ParseCloseFrameData_ok. Qed.
+Print Assumptions C03_source_close_body_parse.
+
+Theorem C03_source_close_body_parse_unsafe : forall w s p,
+  GoMem.sl_valid w s -> GoMem.sl_bytes w s = Translated3Ok.zb p ->
+  Translated3.g3_ParseCloseFrameDataUnsafe s w = GoSlices.Ok (Translated3Ok.parse_close_z p, w).
+Proof. exact Translated3Ok.g3_ParseCloseFrameDataUnsafe_ok. Qed.
+Print Assumptions C03_source_close_body_parse_unsafe.
+
+(* PutCloseFrameBody(p, code, reason) under its documented precondition len(p) >= 2+len(reason): no panic;
+   afterwards p holds code (big endian) ++ reason ++ its old bytes from 2+len(reason) on; nothing else changes *)
+Theorem C03_source_close_body_put : forall w s code reason,
+  GoMem.sl_valid w s -> code < 65536 -> (2 + Z.of_nat (length reason) <= GoMem.sl_len s)%Z ->
+  (GoMem.sl_len s <= Translated3Ok.max_int)%Z ->
+  Translated3.g3_PutCloseFrameBody s (Z.of_N code) (Translated3Ok.zb reason) w =
+  GoSlices.Ok (tt, GoMemProofs.sl_put w s
+    (Translated3Ok.zb (be_bytes 2 code ++ reason) ++ skipn (2 + length reason) (GoMem.sl_bytes w s))).
+Proof. exact Translated3Ok.g3_PutCloseFrameBody_ok. Qed.
+Print Assumptions C03_source_close_body_put.
+
+(* NewCloseFrameBody(code, reason): for every heap, code and reason string (2+len fits int): no panic; the
+   result is a slice over a NEW array holding exactly the model's new_close_body; older memory untouched *)
+Theorem C03_source_close_body_new : forall w code reason,
+  code < 65536 -> (Z.of_nat (length reason) + 2 <= Translated3Ok.max_int)%Z ->
+  Translated3.g3_NewCloseFrameBody (Z.of_N code) (Translated3Ok.zb reason) w =
+  GoSlices.Ok (GoMem.mk_slice (length (GoMem.w_heap w)) 0 (Z.of_nat (length (new_close_body code reason)))
+                              (Z.of_nat (length (new_close_body code reason))),
+               GoMem.mk_world (GoMem.w_heap w ++ [Translated3Ok.zb (new_close_body code reason)]) (GoMem.w_out w)).
+Proof. exact Translated3Ok.g3_NewCloseFrameBody_ok. Qed.
+Print Assumptions C03_source_close_body_new.
+
+Example C03_source_close_body_nonvacuous :
+  let w := GoMem.mk_world [[9; 9; 9]%Z] [] in
+  let reason := map N.of_nat (seq 60 130) in
+  match Translated3.g3_NewCloseFrameBody 1002%Z (Translated3Ok.zb reason) w with
+  | GoSlices.Ok (s, w') =>
+      GoMem.sl_len s = 125%Z /\ GoMem.w_heap w' = [[9; 9; 9]%Z; Translated3Ok.zb (new_close_body 1002 reason)]
+      /\ Translated3.g3_ParseCloseFrameData s w' = GoSlices.Ok ((1002%Z, Translated3Ok.zb (firstn 123 reason)), w')
+  | _ => False
+  end.
+Proof. vm_compute. repeat split; reflexivity. Qed.
